@@ -292,6 +292,12 @@ func (t *tagTracer) RejectMessage(msg *Message, reason string) {
 		fallthrough
 	case RejectValidationFailed:
 		delete(t.nearFirst, t.idGen.ID(msg))
+	case RejectBlacklstedPeer, RejectBlacklistedSource:
+		// A message whose forwarder or author was blacklisted while it was
+		// being validated is dropped with these reasons after the pipeline;
+		// nothing else will ever release its tracking entry. (Copies refused
+		// at the door with the same reasons have no entry of their own.)
+		delete(t.nearFirst, t.idGen.ID(msg))
 	}
 }
 
